@@ -207,6 +207,12 @@ func (t *Terms) term(v ssa.Value) string {
 				}
 				return "load(" + t.T(a) + ")" + t.id(x)
 			}
+			if g, ok := x.X.(*ssa.Global); ok {
+				// a package variable that is only ever assigned by its initialiser denotes the initialiser's value
+				if val := t.p.ConstGlobal(g); val != nil {
+					return t.T(val)
+				}
+			}
 			at := t.T(x.X)
 			if strings.HasPrefix(at, "&") {
 				return at[1:]
